@@ -1,18 +1,26 @@
 """C21 -- an interrupted or in-progress cache write never breaks later loads.
 
-E3 (crash half): the bytes save_model writes are recorded through a logging file shim; every prefix of the
-cache file (quick: every write boundary, every 64th byte and a representative of every loader outcome class;
-thorough: every byte) is materialised as the state after a crash, then the real transfer_model must return a
-model equal to a fresh compile.
-E2 (schedule half): two real transfer_model callers on one folder, scheduled at the cache-file seams
-(getmtime, open, each write chunk, close, pickle.load); all interleavings within a preemption bound.
+Both halves observe the subject through vf.core.fsseam: EVERY file-system operation performed on ANY path in
+the model folder (open for writing / reading, each write piece, truncate, close, os.replace / rename / link /
+remove / unlink / mkdir / utime, stat (getmtime, exists, getsize), scandir (os.walk), listdir, each read of the
+loader) is an operation, whichever module performs it.
+
+E3 (crash half): one real transfer_model call is run per initial folder state (no cache; stale cache) and its
+mutating operations are recorded.  The on-disk state after every prefix of that operation sequence and after
+every byte prefix of every write (so: "temp file half written", "temp file complete but not yet renamed",
+"renamed", "old file removed, new one not yet there" ... whatever the save path does) is re-created as the
+state a crash leaves; then the real transfer_model must return a model equal to a fresh compile, twice.
+Quick: every state through load_model's outcome class, full check on every operation boundary, every 64th
+byte of every write and one representative per class; thorough: full check on every state.
+E2 (schedule half): two real transfer_model callers on one folder, a scheduling point before every operation
+above (writes reach the file in three pieces); all interleavings within a preemption bound; both results and a
+later sequential call must equal a fresh compile.
 """
-import builtins
 import os
-import pickle as real_pickle
+import pickle
 import shutil
 
-from vf.core import common, mcache, sched
+from vf.core import common, fsseam, mcache, sched
 
 LEVEL = "fault_enumeration"
 
@@ -28,7 +36,10 @@ end CM;
 """
 MODEL_B = MODEL.replace("parameter Real p = 2", "parameter Real p = 5").replace("y = 2 * x", "y = 3 * x + 1")
 T0 = 1_700_000_000
+CACHE = "CM.pymoca_cache"
 _EXP = {}
+_INIT = {}
+_REC = {}
 
 
 def setup(text=MODEL):
@@ -50,223 +61,218 @@ def expected(text):
     return _EXP[text]
 
 
+# ---- initial folder states ------------------------------------------------------------------------------------
+
+KINDS = {
+    # kind -> what the folder holds before the calls under test
+    "none": "sources only, no cache file",
+    "stale": "a complete cache file that is older than the (edited) source",
+}
+
+
+def initial(kind):
+    """(files: name -> (bytes, mtime), current source text), built once per process with the real code."""
+    from pymoca.backends.casadi import api
+
+    if kind not in _INIT:
+        d = setup(MODEL)
+        text = MODEL
+        if kind == "stale":
+            api.transfer_model(d, "CM", {"cache": True})
+            os.utime(os.path.join(d, CACHE), (T0 + 5, T0 + 5))
+            # the source is edited afterwards: the cache on disk is out of date for every caller
+            mcache.write_files(d, {"CM.mo": MODEL_B}, mtime=T0 + 20)
+            text = MODEL_B
+        files = {}
+        for n in sorted(os.listdir(d)):
+            p = os.path.join(d, n)
+            with open(p, "rb") as f:
+                files[n] = (f.read(), os.path.getmtime(p))
+        shutil.rmtree(d, ignore_errors=True)
+        _INIT[kind] = (files, text)
+    return _INIT[kind]
+
+
+def make_folder(files):
+    d = common.new_scratch("c21")
+    for n, (data, mt) in files.items():
+        p = os.path.join(d, n)
+        with open(p, "wb") as f:
+            f.write(data)
+        os.utime(p, (mt, mt))
+    return d
+
+
 # ---- crash half ---------------------------------------------------------------------------------------------
 
 
-class LoggingFile:
-    def __init__(self, f, log):
-        self.f, self.log = f, log
-
-    def write(self, b):
-        self.log.append(len(b))
-        return self.f.write(b)
-
-    def __enter__(self):
-        return self
-
-    def __exit__(self, *a):
-        self.f.close()
-
-    def __getattr__(self, n):
-        return getattr(self.f, n)
-
-
-def record_write():
-    """Run the real save path once; returns (cache file bytes, write boundaries)."""
+def record(job):
+    """Run the real transfer_model once from the given initial state under a recording layer; the recording
+    (initial files, mutating operations with their data) goes to `path` for all workers to use."""
     from pymoca.backends.casadi import api
 
-    d = setup()
-    log = []
-
-    def logging_open(path, mode="r", *a, **k):
-        f = builtins.open(path, mode, *a, **k)
-        if str(path).endswith(".pymoca_cache") and "w" in mode:
-            return LoggingFile(f, log)
-        return f
-
-    api.open = logging_open
-    try:
-        api.transfer_model(d, "CM", {"cache": True})
-    finally:
-        del api.open
-    with open(os.path.join(d, "CM.pymoca_cache"), "rb") as f:
-        data = f.read()
+    kind, path = job
+    files, text = initial(kind)
+    d = make_folder(files)
+    lay = fsseam.Layer(d)
+    err = None
+    with lay:
+        try:
+            api.transfer_model(d, "CM", {"cache": True})
+        except Exception as e:  # not judged here: the operations issued up to this point still define crash states
+            err = common.exc_sig(e)
+    if lay.errors:
+        raise RuntimeError("harness: " + "; ".join(lay.errors))
+    rec = {"kind": kind, "files": files, "text": text, "log": lay.log, "trace": lay.trace, "call_error": err}
+    rec["cache_bytes"] = os.path.getsize(os.path.join(d, CACHE)) if os.path.exists(os.path.join(d, CACHE)) else 0
     shutil.rmtree(d, ignore_errors=True)
-    bounds, pos = [], 0
-    for n in log:
-        pos += n
-        bounds.append(pos)
-    return data, bounds
+    with open(path + ".tmp", "wb") as f:
+        pickle.dump(rec, f)
+    os.replace(path + ".tmp", path)
+    return {"kind": kind, "ops": [fsseam.describe(r) for r in lay.log], "writes": fsseam.write_sizes(lay.log), "cache_bytes": rec["cache_bytes"], "trace": lay.trace, "call_error": err}
+
+
+def recording(path):
+    if path not in _REC:
+        with open(path, "rb") as f:
+            _REC[path] = pickle.load(f)
+    return _REC[path]
+
+
+def crash_states(summary):
+    """All crash states of a recording: (k, None) = the first k operations completed; (k, j) = additionally the
+    first j bytes (0 < j < n) of the write that is operation k."""
+    out = []
+    m = len(summary["ops"])
+    for k in range(m + 1):
+        out.append((k, None))
+        n = summary["writes"].get(k)
+        if n:
+            out += [(k, j) for j in range(1, n)]
+    return out
+
+
+def materialise(rec, k, j):
+    d = make_folder(rec["files"])
+    fsseam.replay(d, rec["log"], k, j)
+    return d
+
+
+def state_text(rec, k, j):
+    ops = [fsseam.describe(r) for r in rec["log"]]
+    s = "initial state: %s; the interrupted call had completed %d of %d operations [%s]" % (KINDS[rec["kind"]], k, len(ops), "; ".join(ops[:k]) or "none")
+    if j:
+        s += " and %d bytes of the next %s" % (j, ops[k])
+    return s
 
 
 def classify(job):
-    """Cheap pass: outcome class of load_model for a prefix."""
+    """Cheap pass: outcome class of load_model on a crash state."""
     from pymoca.backends.casadi import api
 
-    data, n = job
-    d = setup()
-    p = os.path.join(d, "CM.pymoca_cache")
-    with open(p, "wb") as f:
-        f.write(data[:n])
-    os.utime(p, (T0 + 10, T0 + 10))
+    path, k, j = job
+    rec = recording(path)
+    d = materialise(rec, k, j)
     try:
         api.load_model(d, "CM", {"cache": True, "expand_mx": True})
         out = "loads"
     except Exception as e:
         out = type(e).__name__
     shutil.rmtree(d, ignore_errors=True)
-    return n, out
+    return out
 
 
 def crash_case(job):
-    """Full pass: the next transfer_model after a crash that left data[:n] (n None = file absent)."""
+    """Full pass: the next transfer_model (and the one after it) on a crash state."""
     from pymoca.backends.casadi import api
 
-    data, n = job
-    d = setup()
-    p = os.path.join(d, "CM.pymoca_cache")
-    if n is not None:
-        with open(p, "wb") as f:
-            f.write(data[:n])
-        os.utime(p, (T0 + 10, T0 + 10))
+    path, k, j = job
+    rec = recording(path)
+    d = materialise(rec, k, j)
     viol = []
-    case = {"crash_prefix_bytes": n, "total_bytes": len(data)}
+    case = {"crash_driver": rec["kind"], "ops_completed": k, "bytes_of_next_write": j}
+    where = state_text(rec, k, j)
+    exp = expected(rec["text"])
     try:
         m = api.transfer_model(d, "CM", {"cache": True})
-        diff = mcache.diff(expected(MODEL), mcache.canon(m))
+        diff = mcache.diff(exp, mcache.canon(m))
         if diff:
-            viol.append(("crash:wrong-model", "after a crash leaving %r of %d bytes transfer_model returns a different model: %s" % (n, len(data), diff[0][1][:300]), case))
+            viol.append(("crash:wrong-model", "%s: transfer_model returns a model that differs from a fresh compile: %s" % (where, diff[0][1][:300]), case))
         else:
             # and the state it leaves behind must be good too
             m2 = api.transfer_model(d, "CM", {"cache": True})
-            diff = mcache.diff(expected(MODEL), mcache.canon(m2))
+            diff = mcache.diff(exp, mcache.canon(m2))
             if diff:
-                viol.append(("crash:wrong-model-second-call", "second call after recovery differs: %s" % diff[0][1][:300], case))
+                viol.append(("crash:wrong-model-second-call", "%s: second call after recovery differs: %s" % (where, diff[0][1][:300]), case))
     except Exception as e:
-        viol.append(("crash:transfer-raises:" + common.exc_sig(e), "after a crash leaving %r of %d bytes of the cache file transfer_model raises %r" % (n, len(data), e), case))
+        viol.append(("crash:transfer-raises:" + common.exc_sig(e), "%s: the next transfer_model raises %r" % (where, e), case))
     shutil.rmtree(d, ignore_errors=True)
     return viol
 
 
 # ---- schedule half ------------------------------------------------------------------------------------------
 
-
-class SchedFile:
-    def __init__(self, f, tag):
-        self.f, self.tag = f, tag
-
-    def write(self, b):
-        sched.point("write:" + self.tag)
-        return self.f.write(b)
-
-    def close(self):
-        sched.point("close:" + self.tag)
-        self.f.close()
-
-    def __enter__(self):
-        return self
-
-    def __exit__(self, *a):
-        self.close()
-
-    def __getattr__(self, n):
-        return getattr(self.f, n)
-
-
-class ShimPickle:
-    def load(self, f):
-        sched.point("pickle.load")
-        return real_pickle.load(getattr(f, "f", f))
-
-    def dump(self, obj, f, protocol=None):
-        data = real_pickle.dumps(obj, protocol=protocol)
-        n = len(data)
-        for a, b in ((0, n // 3), (n // 3, 2 * n // 3), (2 * n // 3, n)):  # the OS may flush in pieces
-            f.write(data[a:b])
-            getattr(f, "f", f).flush()
-
-    def __getattr__(self, n):
-        return getattr(real_pickle, n)
-
-
-class ShimPath:
-    def getmtime(self, p):
-        if str(p).endswith(".pymoca_cache"):
-            sched.point("getmtime:cache")
-        return os.path.getmtime(p)
-
-    def __getattr__(self, n):
-        return getattr(os.path, n)
-
-
-class ShimOs:
-    path = ShimPath()
-
-    def __getattr__(self, n):
-        return getattr(os, n)
-
-
-def sched_open(path, mode="r", *a, **k):
-    if str(path).endswith(".pymoca_cache"):
-        sched.point("open:" + mode)
-        return SchedFile(builtins.open(path, mode, *a, **k), mode)
-    return builtins.open(path, mode, *a, **k)
-
-
 DRIVERS = {
-    # name -> (initial cache: None | 'valid' | 'stale', number of callers)
-    "S1-no-cache-two-callers": (None, 2),
+    # name -> (initial folder state, number of callers)
+    "S1-no-cache-two-callers": ("none", 2),
     "S2-stale-cache-two-callers": ("stale", 2),
 }
+WRITE_PIECES = 3
+
+
+def _is_source(rel):
+    # Nobody writes a source during a schedule (enforced by the layer), so reading one is independent of every
+    # operation of the other caller: not a scheduling point (it cannot change any outcome).
+    return rel.endswith(".mo")
+
+
+def _pid():
+    i = sched.thread_index()
+    return None if i is None else 70001 + i  # two callers = two processes
 
 
 def run_schedule(name, prefix, labels):
     from pymoca.backends.casadi import api
 
-    initial, ncallers = DRIVERS[name]
-    d = setup(MODEL)
-    text_now = MODEL
-    if initial in ("stale", "valid-then-edit"):
-        api.transfer_model(d, "CM", {"cache": True})
-        os.utime(os.path.join(d, "CM.pymoca_cache"), (T0 + 5, T0 + 5))
-        # the source is edited afterwards: the cache on disk is out of date for every caller
-        mcache.write_files(d, {"CM.mo": MODEL_B}, mtime=T0 + 20)
-        text_now = MODEL_B
-    api.open, api.pickle, api.os = sched_open, ShimPickle(), ShimOs()
+    kind, ncallers = DRIVERS[name]
+    files, text_now = initial(kind)
+    d = make_folder(files)
 
     def body():
         m = api.transfer_model(d, "CM", {"cache": True})
         return mcache.canon(m)
 
-    try:
+    lay = fsseam.Layer(d, point=sched.point, chunks=WRITE_PIECES, visible=True, quiet=_is_source, pid=_pid)
+    with lay:
         exe = sched.Execution([body] * ncallers, prefix, labels).run()
-    finally:
-        del api.open
-        api.pickle, api.os = real_pickle, os
+    if lay.errors or exe.error:
+        raise RuntimeError("harness: %s" % (lay.errors or exe.error))
+    exe.seam_kinds = sorted(set(x.split(":")[0] for x in lay.trace))
     viol = []
     exp = expected(text_now)
+    tag = name.split("-")[0]
     for i, r in enumerate(exe.results()):
         if r[0] == "exc":
-            viol.append(("sched:%s:call-raises:%s" % (name.split("-")[0], common.exc_sig(r[1])), "caller %d: transfer_model raised %s(%r)" % (i, r[1][0], r[1][1])))
+            viol.append(("sched:%s:call-raises:%s" % (tag, common.exc_sig(r[1])), "caller %d: transfer_model raised %s(%r)" % (i, r[1][0], r[1][1])))
         else:
             df = mcache.diff(exp, r[1])
             if df:
-                viol.append(("sched:%s:wrong-model" % name.split("-")[0], "caller %d got a model that differs from a fresh compile: %s" % (i, df[0][1][:300])))
+                viol.append(("sched:%s:wrong-model" % tag, "caller %d got a model that differs from a fresh compile: %s" % (i, df[0][1][:300])))
     # whatever the callers left behind must not break the next (sequential) call
     try:
         m = api.transfer_model(d, "CM", {"cache": True})
         df = mcache.diff(exp, mcache.canon(m))
         if df:
-            viol.append(("sched:%s:later-call-wrong-model" % name.split("-")[0], "a later sequential call differs from a fresh compile: %s" % df[0][1][:300]))
+            viol.append(("sched:%s:later-call-wrong-model" % tag, "a later sequential call differs from a fresh compile: %s" % df[0][1][:300]))
     except Exception as e:
-        viol.append(("sched:%s:later-call-raises:%s" % (name.split("-")[0], common.exc_sig(e)), "a later sequential transfer_model raised %r" % e))
+        viol.append(("sched:%s:later-call-raises:%s" % (tag, common.exc_sig(e)), "a later sequential transfer_model raised %r" % e))
     shutil.rmtree(d, ignore_errors=True)
     return exe, viol
 
 
 def sched_job(args):
     name, prefix, labels, bound, root_only = args
-    st = {"executions": 0, "points": 0, "viol": [], "alts": [], "outcomes": {}, "sample": None}
+    st = {"executions": 0, "points": 0, "viol": [], "alts": [], "outcomes": {}, "sample": None, "kinds": set()}
 
     def run_one(pre, lab):
         exe, viol = run_schedule(name, pre, lab)
@@ -276,13 +282,14 @@ def sched_job(args):
                 raise RuntimeError("harness: schedule not reproducible: %r vs %r" % (viol, viol2))
         st["executions"] += 1
         st["points"] += len(exe.points)
+        st["kinds"].update(exe.seam_kinds)
         k = "+".join(sorted(set(s for s, _ in viol))) or "all-correct"
         st["outcomes"][k] = st["outcomes"].get(k, 0) + 1
         if st["sample"] is None:
             st["sample"] = {"driver": name, "schedule": exe.labels()}
         for sig, msg in viol:
             if len(st["viol"]) < 100:
-                st["viol"].append((sig, "%s: %s" % (name, msg), {"driver": name, "choices": exe.choices(), "labels": exe.labels()}))
+                st["viol"].append((sig, "%s: %s; schedule: %s" % (name, msg, " ".join(exe.labels())), {"driver": name, "choices": exe.choices(), "labels": exe.labels()}))
         return exe
 
     if root_only:
@@ -290,23 +297,36 @@ def sched_job(args):
         st["alts"] = sched.alternatives(exe.points, len(prefix), bound)
     else:
         sched.explore(run_one, bound, prefix, labels)
+    st["kinds"] = sorted(st["kinds"])
     return st
 
 
 def run(ctx):
     thorough = ctx.tier == "thorough"
     with common.Pool() as pool:
-        data, bounds = record_write_in_pool(pool)
-        n = len(data)
         # crash half
-        offs = list(range(n + 1)) if thorough else sorted(set(range(0, n, 64)) | set(bounds) | {0, 1, 2, n - 1, n})
-        cls = pool.map(classify, [(data, k) for k in range(n + 1)], chunksize=64)
-        classes = {}
-        for k, c in cls:
-            classes.setdefault(c, k)
-        offs = sorted(set(offs) | set(classes.values()))
-        jobs = [(data, None)] + [(data, k) for k in offs]
-        res = pool.map(crash_case, jobs, chunksize=2)
+        paths = {k: os.path.join(common.scratch_root(), "c21_rec_%s.pkl" % k) for k in KINDS}
+        sums = pool.map(record, [(k, paths[k]) for k in KINDS], chunksize=1)
+        states, full = [], []
+        for s in sums:
+            st = crash_states(s)
+            states += [(paths[s["kind"]], k, j) for k, j in st]
+        cls = pool.map(classify, states, chunksize=64)
+        classes, reps = {}, set()
+        for s, c in zip(states, cls):
+            key = (os.path.basename(s[0]), c)
+            if key not in classes:
+                reps.add(s)
+            classes[key] = classes.get(key, 0) + 1
+        for s in states:
+            path, k, j = s
+            if thorough or j is None or s in reps:
+                full.append(s)
+                continue
+            n = [x for x in sums if paths[x["kind"]] == path][0]["writes"][k]
+            if j in (1, 2, n - 1) or j % 64 == 0:
+                full.append(s)
+        res = pool.map(crash_case, full, chunksize=2)
         for v in res:
             for sig, msg, case in v:
                 ctx.violation(sig, msg, case)
@@ -320,55 +340,65 @@ def run(ctx):
                 sjobs.append((r[0], pre, lab, bound, False))
         sres = pool.map(sched_job, sjobs, chunksize=1)
     execs = points = 0
-    outcomes = {}
+    outcomes, kinds = {}, set()
     for st in rres + sres:
         execs += st["executions"]
         points += st["points"]
+        kinds.update(st["kinds"])
         for k, v in st["outcomes"].items():
             outcomes[k] = outcomes.get(k, 0) + v
         for sig, msg, case in st["viol"]:
             ctx.violation(sig, msg, case)
-    ctx.sample({"crash_prefix_bytes": offs[len(offs) // 2], "of": n})
-    if rres and rres[0]["sample"]:
-        ctx.sample(rres[0]["sample"])
+    mid = full[len(full) // 2]
+    ctx.sample({"crash_driver": os.path.basename(mid[0]), "ops_completed": mid[1], "bytes_of_next_write": mid[2]})
+    for st in rres:
+        if st["sample"]:
+            ctx.sample(st["sample"])
+    proper = sum(1 for p, k, j in full if j is not None or 0 < k)  # something of the interrupted call is on disk
     ctx.coverage.update(
         {
-            "evaluations": len(jobs) + execs + len(cls),
-            "distinct_nontrivial": len(jobs) - 2 + len(outcomes),
-            "cache_file_bytes": n,
-            "write_boundaries": bounds,
-            "crash_points_fully_checked": len(jobs),
-            "crash_points_classified": len(cls),
-            "loader_outcome_classes": {c: sum(1 for _, x in cls if x == c) for c in classes},
+            "evaluations": len(full) + execs + len(states),
+            "distinct_nontrivial": proper + len(outcomes),
+            "cache_file_bytes": sums[0]["cache_bytes"],
+            "recorded_operations": {s["kind"]: s["ops"] for s in sums},
+            "recorded_trace": {s["kind"]: s["trace"] for s in sums},
+            "recorded_call_raised": {s["kind"]: s["call_error"] for s in sums if s["call_error"]},
+            "crash_states": len(states),
+            "crash_states_classified": len(cls),
+            "crash_states_fully_checked": len(full),
+            "loader_outcome_classes": {"%s:%s" % k: v for k, v in sorted(classes.items())},
             "schedules": execs,
             "schedule_points": points,
+            "schedule_seam_kinds": sorted(kinds),
             "schedule_outcomes": outcomes,
             "preemption_bound": bound,
             "exhaustive": True,
-            "rule": "crash half: cache file absent, empty and every prefix listed (all %d+1 offsets through load_model's outcome "
-            "class; full transfer_model + comparison with a fresh compile on %s); schedule half: every interleaving with <= %d "
-            "preemptions of two transfer_model callers at the cache-file seams for 2 drivers (no cache; stale cache), followed by a sequential call. Non-trivial = proper prefixes (neither absent nor complete) and "
-            "distinct schedule outcome classes." % (n, "every byte offset" if thorough else "write boundaries, every 64th byte and one per class", bound),
+            "rule": "crash half: for each initial folder state (no cache; stale cache) the mutating file-system operations of one real "
+            "transfer_model call in the model folder are recorded (any path, any operation kind); crash states = the folder after every "
+            "prefix of that operation sequence and after every byte prefix of every write (%d states, all through load_model's outcome "
+            "class; full transfer_model twice + comparison with a fresh compile on %s); schedule half: every interleaving with <= %d "
+            "preemptions of two transfer_model callers with a scheduling point before every file-system operation in the model folder "
+            "(writes in %d pieces; reads of the unmodified sources excepted) for 2 drivers (no cache; stale cache), followed by a "
+            "sequential call. Non-trivial = fully checked crash states in which part of the interrupted call is on disk, and distinct "
+            "schedule outcome classes."
+            % (len(states), "every state" if thorough else "every operation boundary, bytes 1, 2, n-1 and every 64th of each write, and one per class", bound, WRITE_PIECES),
         }
     )
     ctx.assumptions += [
-        "a crash leaves a prefix of the bytes written (single file, append-only write pattern); torn sectors inside the prefix are not modelled",
-        "codegen artefacts are not crash-enumerated in this build",
+        "a crash leaves the effects of a prefix of the operations the process issued, the last write possibly cut at any byte "
+        "(process death: data written before a later operation is not lost; no power-loss reordering, no torn sectors)",
+        "two callers are two threads of one process scheduled at file-system operations in the model folder; os.getpid, tempfile "
+        "names and uuid1/uuid4 are virtualised per caller; one read call of the loader is atomic; closing a read handle is not a point",
+        "codegen artefacts are not crash-enumerated in this build; one model",
     ]
 
 
-def record_write_in_pool(pool):
-    return pool.map(_rec, [0], chunksize=1)[0]
-
-
-def _rec(_):
-    return record_write()
-
-
 def replay(case):
-    if "crash_prefix_bytes" in case:
-        data, bounds = record_write()
-        v = crash_case((data, case["crash_prefix_bytes"]))
+    if "crash_driver" in case:
+        kind = case["crash_driver"].replace("c21_rec_", "").replace(".pkl", "")
+        path = os.path.join(common.new_scratch("c21rec"), "rec.pkl")
+        record((kind, path))
+        v = crash_case((path, case["ops_completed"], case["bytes_of_next_write"]))
         print([m for _, m, _ in v] or "ok")
         return not v
     exe, viol = run_schedule(case["driver"], case["choices"], case["labels"])
